@@ -1794,8 +1794,11 @@ def run14(case):
                     hb = re.findall(_EV_MARK, bo)
                     ha = re.findall(_EV_MARK, a)
                     lost = [h for h in hb if h not in ha]
-                    sig = 'trap-follow:%s:%s' % ('event-trap' if kind == 'goto' else 'cont-after-renum-in-pause',
-                                                 u(lost[0]) if lost else 'output-differs')
+                    what = u(lost[0]) if lost else 'output-differs'
+                    if kind == 'cont' and not lost and bo.count(b'EH') != a.count(b'EH'):
+                        # the program's ON ERROR handler (every one prints EH...) ran in one arm only
+                        what = 'error-trap'
+                    sig = 'trap-follow:%s:%s' % ('event-trap' if kind == 'goto' else 'cont-after-renum-in-pause', what)
                 else:
                     sig = 'behaviour:run-output-differs' + (':with-events' if evk else '')
                 if not any_renum:
